@@ -236,10 +236,16 @@ def r3_mode_seed_reaches_pipeline(ctx):
     b = ctx.func("pyxel.calibration.archipelago_datatree:ArchipelagoDataTree._build")
     sts = [st for st, t in stores(b.node, lambda t: isinstance(t, ast.Name) and t.id == "seeds")]
     derived = False
+    from sa.astutil import flow_exprs
+
     for st in sts:
-        v = expand(b, st.value) if getattr(st, "value", None) is not None else None
-        if v is not None and "default_rng" in norm(v) and "self.pygmo_seed" in norm(v):
-            derived = True
+        if getattr(st, "value", None) is None:
+            continue
+        # whatever shape the drawing code has (comprehension, loop + append, helper): the values
+        # flowing into `seeds` must include a generator built from the optimiser seed
+        for v in flow_exprs(b, st.value)[1]:
+            if "default_rng" in norm(v) and "self.pygmo_seed" in norm(v):
+                derived = True
     ctx.check(derived, b.qual + "#island-seeds", "island seeds drawn from default_rng(self.pygmo_seed) (local generator)" if derived else "island seeds do not derive from the optimiser seed", where=b, node=sts[-1] if sts else b.node)
     isl = [cl for fn in [b] + list(b.nested.values()) for cl in calls_in(fn.node) if call_name(cl).endswith("pg.island") or call_name(cl) == "island"]
     ok = bool(isl) and all(kw(cl, "seed") is not None and dotted(kw(cl, "seed")) == "seed" for cl in isl)
